@@ -2,6 +2,8 @@
 import common
 import gen_scope
 import pipeline
+import semcheck
+import semprop
 
 IMPORT_CASES = [
     ("import-public-func", {"main.tsh": 'import m "lib.tsh"\nprint(m.Pub())\n', "lib.tsh": 'func Pub() int {\n\treturn 1\n}\nfunc priv() int {\n\treturn 2\n}\n'}, True),
@@ -76,8 +78,18 @@ def run(res, b, tier, seed):
         if accepted != r["expect"]:
             fails.append((c, "in-scope-use-rejected" if r["expect"] else "out-of-scope-or-misplaced-accepted",
                           bytes.fromhex(c.out["AST"][1]).decode("utf-8", "replace") if ast == "ERR" else ""))
+    # names resolve lexically in the SCRIPT too: directed programs whose behaviour shows which variable a name reached (a callee's local
+    # against the caller's local / loop variable / parameter of the same spelling), executed (round 8: C07-B)
+    rt = [pipeline.Case("rt-" + name, {"main.tsh": j["src"].encode()}, meta=dict(expected_out=j["stdout"], expected_status=j["status"], src=j["src"], name="runtime:" + name))
+          for prop in ("C07", "C02") for name, j in semprop.load_corpus(prop)]
+    rt_dis, rt_fails = semcheck.check_cases(b, rt, stages="as")
+    for c, kind, detail in rt_fails:
+        fails.append((c, "name-reached-another-variable" if kind == "behaviour" else kind, str(detail)[:1500]))
+        c.meta.setdefault("expect", True)
+    dis += [c for c, _, _ in rt_dis]
     res.coverage.update(dict(
-        evaluations=len(cases),
+        evaluations=len(cases) + len(rt),
+        executed_scope_programs=len(rt),
         distinct_nontrivial=len({(r["name"], r.get("d"), r.get("u")) for r in (c.meta for c in cases)}),
         exhaustive=True,
         rule="all (definition slot, use slot) pairs over a block skeleton with 21 slots (top level, function body, if/else, for body, nested if, switch "
